@@ -48,6 +48,9 @@ DETAIL = {}
 def fail(**detail):
     """Record what disagreed (shown by ./check replay) and return False."""
     if os.environ.get('VKIT_ENGINE') == '1':
+        if os.environ.get('VKIT_DEBUG_FAIL'):          # development aid: which comparison failed inside the engine
+            import sys
+            sys.stderr.write('ENGINE-FAIL %r\n' % (sorted(detail.items(), key=lambda kv: kv[0]),))
         return False
     DETAIL.clear()
     for k, v in detail.items():
